@@ -153,6 +153,25 @@ func genC07Frames(r *PRNG) *Scenario {
 	scn.Links = []Link{l}
 	scn.Net = NetCfg{DefCap: genCap(r)}
 	scn.Sched.IdleHorizon = 10000
+	if r.Chance(1, 5) {
+		// the write lock is held by a controller that is stalled inside the transport for good:
+		// whatever the input, the reader must not block behind it for ever
+		scn.Class = "frames-write-stalled"
+		ctl := TaskCfg{Kind: "ctl", W: []WOp{{Kind: "ctl", MT: 9, Pay: Payload{Len: 8, Seed: 1}, DlMs: 0}}}
+		dir := "ab"
+		if realIsServer {
+			dir = "ba"
+		}
+		scn.Net.Conns = []ConnCfg{{Stalls: []Stall{{Dir: dir, Side: "w", At: 0, DurMs: -1}}}}
+		lk := &scn.Links[0]
+		lk.Script = append([]SItem{{Kind: "pause", PauseMs: 50}}, lk.Script...)
+		if realIsServer {
+			lk.STasks = append(lk.STasks, ctl)
+		} else {
+			lk.CTasks = append(lk.CTasks, ctl)
+		}
+		scn.Sched.IdleHorizon = 4000 * 1000
+	}
 	return scn
 }
 
@@ -265,6 +284,19 @@ func genC07Request(r *PRNG) *Scenario {
 			return name + ": " + base + "\r\n"
 		}
 		v := genHeaderValue(r, base)
+		if name == "Sec-WebSocket-Key" && r.Bool() {
+			// strings over the base64 alphabet of every interesting length, with 0-3 padding characters
+			n := r.Pick([]int{0, 1, 4, 16, 20, 21, 22, 23, 24, 24, 24, 25, 26, 28, 32, 44})
+			pad := r.Intn(4)
+			b := make([]byte, n)
+			for i := range b {
+				b[i] = "ABCDEFGHIJKLMNOPQRSTUVWXYZabcdefghijklmnopqrstuvwxyz0123456789+/"[r.Intn(64)]
+			}
+			for i := 0; i < pad && i < n; i++ {
+				b[n-1-i] = '='
+			}
+			v = string(b)
+		}
 		if r.Chance(1, 6) {
 			return name + ": " + v + "\r\n" + name + ": " + genHeaderValue(r, base) + "\r\n"
 		}
@@ -296,7 +328,7 @@ func oracleC07(run *Run) {
 	}
 	received := 0
 	switch cls {
-	case "frames":
+	case "frames", "frames-write-stalled":
 		e := realOfLink(run, 0)
 		if e == nil {
 			return
